@@ -424,6 +424,17 @@ def r7(tree, rep):
 
 
 def run(tree, rep, tier):
+    # whatever goes wrong while a record is handled (a consumer / file that raises) reaches dataReceived's handler, which hangs up: no
+    # except-clause on the way from dataReceivedRECORDS to the consumer swallows it
+    from ..ctxmgr import swallowing_handlers
+    cls_ = tree.cls(TR, "Connection")
+    for m_ in [x for x in cls_.body if isinstance(x, ast.FunctionDef) and x.name in ("dataReceivedRECORDS", "recordReceived", "_writeToConsumer", "_deliverRecords", "_decrypt_record")]:
+        bad_ = swallowing_handlers(m_, lambda c: True)
+        rep.check("C06.R8", "Connection.%s: no except-clause turns a failure during record handling into a normal return" % m_.name, not bad_,
+                  site(bad_[0][0] if bad_ else m_, TR), key="C06.R8:%s:no-swallow" % m_.name,
+                  what="Connection.%s catches %s and returns normally: the connection is not put into its terminal state, records that follow the failed "
+                       "one are still decrypted and delivered (a record is skipped, pending reads do not fail)" % (
+                           m_.name, ast.unparse(bad_[0][0].type) if bad_ and bad_[0][0].type is not None else "everything"))
     from .. import sharedstate
     sharedstate.check(tree, rep, "C06.R0")
     r7(tree, rep)
